@@ -117,6 +117,8 @@ fn parse(input: &str) -> Parsed {
     p
 }
 
+const GARBAGE_MARK: &str = "\u{1}GARBAGE\u{1}";
+
 fn main() {
     // Exactly the arguments the harness passes are accepted: a torn, duplicated or missing
     // option makes this solver refuse to run (no output, exit status 64), as a real solver
@@ -154,6 +156,32 @@ fn main() {
         }
         s
     };
+
+    // diagnostics on stderr (real solvers print warnings and statistics there): `stderr_bytes` bytes in
+    // lines of ~100 bytes, before reading the instance (0), before the reply (1) or after it (2)
+    let stderr_bytes = cfg["stderr_bytes"].as_u64().unwrap_or(0) as usize;
+    let stderr_when = cfg["stderr_when"].as_u64().unwrap_or(0);
+    let diagnostics = |when: u64| {
+        if stderr_bytes == 0 || stderr_when != when {
+            return;
+        }
+        log(&logp, json!({"event":"writing","inv":inv,"pid":pid,"what":"stderr","bytes":stderr_bytes}));
+        let mut line = String::from("c fake_sat diagnostic ");
+        while line.len() < 99 {
+            line.push('w');
+        }
+        line.push('\n');
+        let mut err = std::io::stderr();
+        let mut written = 0usize;
+        while written < stderr_bytes {
+            if err.write_all(line.as_bytes()).is_err() {
+                break;
+            }
+            written += line.len();
+        }
+        log(&logp, json!({"event":"written","inv":inv,"pid":pid,"what":"stderr"}));
+    };
+    diagnostics(0);
 
     let stdout = std::io::stdout();
     let mut out = stdout.lock();
@@ -246,6 +274,7 @@ fn main() {
         std::process::exit(1);
     }
 
+    diagnostics(1);
     let mut solver: cadical::Solver = cadical::Solver::new();
     for c in &p.clauses {
         solver.add_clause(c.iter().copied());
@@ -253,6 +282,7 @@ fn main() {
     let res = solver.solve();
     let nvars = p.header_vars.max(p.max_var) as i32;
 
+    let flavour = cfg["garbage_flavour"].as_str().unwrap_or("ascii").to_string();
     let mut reply = banner;
     if fault == "verbatim" {
         reply.push_str(cfg["verbatim"][inv.to_string()].as_str().or(cfg["verbatim_all"].as_str()).unwrap_or(""));
@@ -260,7 +290,7 @@ fn main() {
         reply.push_str("s UNKNOWN");
         reply.push_str(nl);
     } else if fault == "garbage" {
-        reply.push_str("this line is not part of the output format");
+        reply.push_str(if flavour == "ascii" { "this line is not part of the output format" } else { GARBAGE_MARK });
         reply.push_str(nl);
         reply.push_str(if res == Some(true) { "s SATISFIABLE" } else { "s UNSATISFIABLE" });
         reply.push_str(nl);
@@ -317,25 +347,36 @@ fn main() {
     }
     if fault == "garbage_after" {
         // the verdict is followed by output that is not part of the format (e.g. an error message of a dying solver)
-        reply.push_str("ERROR: internal error, aborting");
+        reply.push_str(if flavour == "ascii" { "ERROR: internal error, aborting" } else { GARBAGE_MARK });
         reply.push_str(nl);
     }
     for i in 0..comments_after {
         reply.push_str(&comment_line(i));
         reply.push_str(nl);
     }
+    // a garbled line need not be text at all: the marker is replaced by bytes that are not valid UTF-8
+    let mut reply: Vec<u8> = reply.into_bytes();
+    if let Some(pos) = reply.windows(GARBAGE_MARK.len()).position(|w| w == GARBAGE_MARK.as_bytes()) {
+        let junk: &[u8] = match flavour.as_str() {
+            "binary" => b"\xff\xfe\x00\x80\x81 core dumped \xf5\xc0",
+            "cut_utf8" => b"c r\xc3\xa9sultat interrompu au milieu d'un caract\xc3",
+            _ => b"erreur d\xe9tect\xe9e : arr\xeat",
+        };
+        reply.splice(pos..pos + GARBAGE_MARK.len(), junk.iter().copied());
+    }
     log(&logp, json!({"event":"writing","inv":inv,"pid":pid,"what":"reply","bytes":reply.len(),"sat":res}));
     let chunked = io_order == "interleaved";
     let ok = if chunked {
         let mut ok = true;
-        for ch in reply.as_bytes().chunks(4096) {
+        for ch in reply.chunks(4096) {
             ok &= out.write_all(ch).is_ok();
             ok &= out.flush().is_ok();
         }
         ok
     } else {
-        out.write_all(reply.as_bytes()).is_ok() && out.flush().is_ok()
+        out.write_all(&reply).is_ok() && out.flush().is_ok()
     };
+    diagnostics(2);
     log(&logp, json!({"event":"done","inv":inv,"pid":pid,"write_ok":ok,"reply_bytes":reply.len()}));
     let code = match res {
         Some(true) => 10,
